@@ -73,7 +73,7 @@ class Registry:
 
     def primary(self, key):
         """The contract used at call sites: the first non-block contract registered for key."""
-        cs = [c for c in self.contracts.get(key, []) if c.block is None]
+        cs = [c for c in self.contracts.get(key, []) if c.block is None and not c.blocks_only]
         for c in cs:
             if c.name and c.name.startswith('abs:'):
                 return c
